@@ -119,7 +119,7 @@ static evutil_socket_t ns_fd = -1, ns_tcp_fd = -1;
 static struct sockaddr_in ns_addr;
 static struct event *ns_ev;
 static int ns_mode; /* 0 silent, 1 NXDOMAIN echo, 2 scripted reply */
-static unsigned char *ns_reply; static int ns_reply_len; static int ns_reply_patch_id, ns_reply_echo_q, ns_replies_left;
+static unsigned char *ns_reply; static int ns_reply_len; static int ns_reply_patch_id, ns_reply_echo_q, ns_replies_left, ns_reply_id_delta, ns_reply_specid;
 
 static void pk_clear(void) { int i; for (i = 0; i < npk; i++) free(pk[i].b); npk = 0; }
 static void pk_add(const unsigned char *b, int n)
@@ -164,6 +164,7 @@ static void ns_cb(evutil_socket_t fd, short what, void *arg)
 			int rl = ns_reply_len;
 			memcpy(r, ns_reply, rl);
 			if (ns_reply_patch_id && rl >= 2) { r[0] = b[0]; r[1] = b[1]; }
+			if (ns_reply_id_delta && rl >= 2) { int id = ((r[0] * 256 + r[1]) - ns_reply_specid + (b[0] * 256 + b[1])) & 0xffff; r[0] = id >> 8; r[1] = id & 255; }
 			if (ns_reply_echo_q) { /* copy the case of the question name as sent */
 				char nm[512]; int e = q_name(b, n, nm, sizeof nm);
 				if (e > 0 && e <= rl) memcpy(r + 12, b + 12, e - 12);
@@ -394,6 +395,199 @@ static void mode_resolvconf(jval *sc)
 	evdns_base_free(dns, 0); dns = NULL;
 }
 
+
+/* ---------------------------------------------------------------- mode server (C35 / C37) */
+static jval *srv_reply;
+static int srv_ncb;
+static void srv_cb(struct evdns_server_request *req, void *arg)
+{
+	int i, err = (int)j_int(srv_reply, "err", 0);
+	jval *recs = j_get(srv_reply, "recs");
+	size_t k;
+	fprintf(out, "%s{\"flags\":%d,\"q\":[", srv_ncb++ ? "," : "", req->flags);
+	for (i = 0; i < req->nquestions; i++) {
+		struct evdns_server_question *q = req->questions[i];
+		fprintf(out, "%s{\"t\":%d,\"c\":%d,\"n\":", i ? "," : "", q->type, q->dns_question_class);
+		put_hex(out, (unsigned char *)q->name, strlen(q->name));
+		fputc('}', out);
+	}
+	fprintf(out, "],\"add\":[");
+	for (k = 0; recs && k < recs->n; k++) {
+		jval *r = recs->items[k];
+		int isname = (int)j_int(r, "isname", 0), rr;
+		static unsigned char data[70000];
+		size_t dl = 0;
+		const char *d = j_str(r, "data", "");
+		if (!isname) dl = unhex(d, data, sizeof data);
+		rr = evdns_server_request_add_reply(req, (int)j_int(r, "sec", 0), j_str(r, "name", ""), (int)j_int(r, "type", 1),
+		    (int)j_int(r, "class", 1), (int)j_int(r, "ttl", 0), isname ? -1 : (int)dl, isname, isname ? d : (char *)data);
+		fprintf(out, "%s%d", k ? "," : "", rr);
+	}
+	fprintf(out, "]");
+	if (j_int(srv_reply, "drop", 0)) fprintf(out, ",\"r\":%d}", evdns_server_request_drop(req));
+	else fprintf(out, ",\"r\":%d}", evdns_server_request_respond(req, err));
+}
+
+static void mode_server(jval *sc)
+{
+	const char *tr = j_str(sc, "tr", "udp");
+	struct evdns_server_port *port = NULL;
+	struct sockaddr_in sin;
+	socklen_t sl = sizeof sin;
+	evutil_socket_t cfd = -1;
+	static unsigned char buf[1 << 17], rbuf[1 << 18];
+	size_t rlen = 0, k;
+	int closed = 0, first = 1;
+	char *cbs = NULL; size_t cbl = 0;
+	FILE *saved = out;
+	srv_reply = j_get(sc, "reply"); srv_ncb = 0;
+	memset(&sin, 0, sizeof sin); sin.sin_family = AF_INET; sin.sin_addr.s_addr = htonl(0x7f000001);
+	out = open_memstream(&cbs, &cbl); /* callback records go here */
+	if (!strcmp(tr, "udp")) {
+		jval *msgs = j_get(sc, "msgs");
+		evutil_socket_t sfd = socket(AF_INET, SOCK_DGRAM, 0);
+		bind(sfd, (struct sockaddr *)&sin, sizeof sin); getsockname(sfd, (struct sockaddr *)&sin, &sl);
+		evutil_make_socket_nonblocking(sfd);
+		port = evdns_add_server_port_with_base(base, sfd, 0, srv_cb, NULL);
+		cfd = socket(AF_INET, SOCK_DGRAM, 0);
+		connect(cfd, (struct sockaddr *)&sin, sizeof sin);
+		evutil_make_socket_nonblocking(cfd);
+		fprintf(saved, "{\"resp\":[");
+		for (k = 0; msgs && k < msgs->n; k++) {
+			size_t n = unhex(msgs->items[k]->str, buf, sizeof buf);
+			int r;
+			send(cfd, buf, n, 0);
+			pump_now(2);
+			while ((r = recv(cfd, rbuf, sizeof rbuf, 0)) >= 0) {
+				fprintf(saved, "%s", first ? "" : ","); first = 0;
+				put_hex(saved, rbuf, r);
+			}
+		}
+		fprintf(saved, "]");
+	} else {
+		jval *segs = j_get(sc, "segs");
+		size_t n = unhex(j_str(sc, "stream", ""), buf, sizeof buf), off = 0, o2;
+		struct evconnlistener *lis = evconnlistener_new_bind(base, NULL, NULL, LEV_OPT_CLOSE_ON_FREE | LEV_OPT_REUSEABLE, 16,
+		    (struct sockaddr *)&sin, sizeof sin);
+		int idle = 0;
+		getsockname(evconnlistener_get_fd(lis), (struct sockaddr *)&sin, &sl);
+		port = evdns_add_server_port_with_listener(base, lis, 0, srv_cb, NULL);
+		cfd = socket(AF_INET, SOCK_STREAM, 0);
+		connect(cfd, (struct sockaddr *)&sin, sizeof sin);
+		evutil_make_socket_nonblocking(cfd);
+		pump_now(2);
+		for (k = 0; off < n; k++) {
+			size_t seg = (segs && k < segs->n) ? (size_t)segs->items[k]->i : n - off;
+			if (seg == 0 || seg > n - off) seg = n - off;
+			if (send(cfd, buf + off, seg, MSG_NOSIGNAL) < 0) break;
+			off += seg;
+			pump_now(1);
+		}
+		while (idle < 4 && rlen < sizeof rbuf) {
+			int r = recv(cfd, rbuf + rlen, sizeof rbuf - rlen, 0);
+			if (r > 0) { rlen += r; idle = 0; continue; }
+			if (r == 0) { closed = 1; break; }
+			if (errno != EAGAIN && errno != EWOULDBLOCK) { closed = 2; break; }
+			idle++;
+			pump_now(2);
+		}
+		if (j_int(sc, "half_close", 0)) { shutdown(cfd, SHUT_WR); pump_now(3); }
+		fprintf(saved, "{\"resp\":[");
+		for (o2 = 0; o2 + 2 <= rlen; ) {
+			size_t l = rbuf[o2] * 256 + rbuf[o2 + 1];
+			if (o2 + 2 + l > rlen) break;
+			fprintf(saved, "%s", first ? "" : ","); first = 0;
+			put_hex(saved, rbuf + o2 + 2, l);
+			o2 += 2 + l;
+		}
+		fprintf(saved, "],\"rest\":%d,\"closed\":%d", (int)(rlen - o2), closed);
+	}
+	fclose(out); out = saved;
+	fprintf(out, ",\"cb\":[%s]", cbs ? cbs : "");
+	free(cbs);
+	if (cfd >= 0) close(cfd);
+	pump_now(2);
+	if (port) evdns_close_server_port(port);
+	pump_now(1);
+}
+
+/* ---------------------------------------------------------------- modes query (C36) and reply (C33) */
+static int ncbrec;
+static int64_t issue_ns;
+static void rec_cb(int err, char type, int count, int ttl, void *addrs, void *arg)
+{
+	struct slot *s = arg;
+	int i;
+	fprintf(out, "%s{\"err\":%d,\"type\":%d,\"count\":%d,\"ttl\":%d,\"at_ms\":%lld", ncbrec++ ? "," : "", err, type, count, ttl,
+	    (long long)((vt_now_ns - issue_ns) / 1000000));
+	if (err == 0 && addrs) {
+		if (type == DNS_IPv4_A || type == DNS_IPv6_AAAA) {
+			int w = type == DNS_IPv4_A ? 4 : 16;
+			fprintf(out, ",\"addrs\":[");
+			for (i = 0; i < count; i++) { if (i) fputc(',', out); put_hex(out, (unsigned char *)addrs + i * w, w); }
+			fprintf(out, "]");
+		} else if (type == DNS_PTR) {
+			const char *n = *(char **)addrs;
+			fprintf(out, ",\"ptr\":"); put_hex(out, (const unsigned char *)n, strlen(n));
+		} else if (type == DNS_CNAME) {
+			fprintf(out, ",\"cname\":"); put_hex(out, (const unsigned char *)addrs, strlen((char *)addrs));
+		}
+	}
+	fputc('}', out);
+	if (type != DNS_CNAME) s->done = 1; /* a CNAME callback follows the address callback */
+	s->ncb++;
+}
+
+static struct evdns_request *issue(jval *sc, struct slot *s)
+{
+	const char *type = j_str(sc, "type", "a");
+	int flags = (int)j_int(sc, "flags", 0);
+	static unsigned char nm[1024];
+	size_t n = unhex(j_str(sc, "name_hex", ""), nm, sizeof nm - 1);
+	nm[n] = 0;
+	issue_ns = vt_now_ns;
+	if (!strcmp(type, "a")) return evdns_base_resolve_ipv4(dns, (char *)nm, flags, rec_cb, s);
+	if (!strcmp(type, "aaaa")) return evdns_base_resolve_ipv6(dns, (char *)nm, flags, rec_cb, s);
+	if (!strcmp(type, "ptr4")) { struct in_addr a; evutil_inet_pton(AF_INET, (char *)nm, &a); return evdns_base_resolve_reverse(dns, &a, flags, rec_cb, s); }
+	if (!strcmp(type, "ptr6")) { struct in6_addr a; evutil_inet_pton(AF_INET6, (char *)nm, &a); return evdns_base_resolve_reverse_ipv6(dns, &a, flags, rec_cb, s); }
+	return NULL;
+}
+
+static void mode_client(jval *sc, int scripted)
+{
+	jval *opts = j_get(sc, "opts"), *search = j_get(sc, "search");
+	struct slot *s = &slots[0];
+	struct evdns_request *rq;
+	size_t k;
+	int i;
+	char *cbs = NULL; size_t cbl = 0;
+	FILE *saved = out;
+	static unsigned char rep[70000];
+	dns = evdns_base_new(base, 0);
+	fprintf(out, "{\"optr\":[");
+	for (k = 0; opts && k < opts->n; k++)
+		fprintf(out, "%s%d", k ? "," : "", evdns_base_set_option(dns, opts->items[k]->items[0]->str, opts->items[k]->items[1]->str));
+	fprintf(out, "]");
+	for (k = 0; search && k < search->n; k++) evdns_base_search_add(dns, search->items[k]->str);
+	if (j_get(sc, "ndots")) evdns_base_search_ndots_set(dns, (int)j_int(sc, "ndots", 1));
+	evdns_base_nameserver_sockaddr_add(dns, (struct sockaddr *)&ns_addr, sizeof ns_addr, 0);
+	if (scripted) {
+		ns_mode = 2; ns_reply = rep; ns_reply_len = (int)unhex(j_str(sc, "reply", ""), rep, sizeof rep);
+		ns_reply_id_delta = 1; ns_reply_specid = (int)j_int(sc, "specid", 4660); ns_replies_left = (int)j_int(sc, "nreplies", 1);
+	} else ns_mode = 1;
+	memset(s, 0, sizeof *s); pk_clear(); ncbrec = 0;
+	out = open_memstream(&cbs, &cbl);
+	rq = issue(sc, s);
+	if (rq) { pump_until(&s->done, 3000); pump_now(1); }
+	fclose(out); out = saved;
+	fprintf(out, ",\"ret\":%d,\"done\":%d,\"cb\":[%s],\"pkts\":[", rq != NULL, s->done, cbs ? cbs : "");
+	free(cbs);
+	for (i = 0; i < npk; i++) { if (i) fputc(',', out); put_hex(out, pk[i].b, pk[i].n); }
+	fprintf(out, "]");
+	evdns_base_free(dns, 0); dns = NULL;
+	pump_now(1);
+}
+
 /* ---------------------------------------------------------------- main */
 static void run_scenario(jval *sc)
 {
@@ -404,6 +598,9 @@ static void run_scenario(jval *sc)
 	base = event_base_new();
 	ns_open();
 	if (!strcmp(mode, "resolvconf")) mode_resolvconf(sc);
+	else if (!strcmp(mode, "server")) mode_server(sc);
+	else if (!strcmp(mode, "query")) mode_client(sc, 0);
+	else if (!strcmp(mode, "reply")) mode_client(sc, 1);
 	else fprintf(out, "{\"err\":\"unknown mode\"");
 	ns_close();
 	pump_now(0);
